@@ -4,11 +4,14 @@
 (*                                                                          *)
 (*   Model:   ('model' name=ID)? imports*=Import ('first' first=Def)? elems*=Elem; *)
 (*   Import:  'import' importURI=STRING;                                    *)
-(*   Elem:    Pkg | Grp | Box | Def | Use | UseList;                        *)
+(*   Elem:    Pkg | Grp | Box | Slot | Def | Use | UseList;                 *)
 (*   Pkg:     'pkg' name=ID '{' ('head' head=DefB)? ('defs' defs+=Def ';')? elems*=Elem '}'; *)
 (*   Grp:     items+=Def['&'] ';';       starts where its first item starts *)
 (*   Box:     inner=Cell;                has exactly the span of its content *)
 (*   Cell:    'cell' name=ID;                                               *)
+(*   Slot:    'slot' val=Value;                                             *)
+(*   Value:   Tag | Cell;                an abstract rule with a match-rule  *)
+(*   Tag:     /t[0-9]+/;                 alternative: val may be a plain value *)
 (*   Def:     DefA | DefB;                                                  *)
 (*   DefA:    'defa' name=ID ('extends' extends+=[Def:QName][','])?;        *)
 (*   DefB:    'defb' name=ID;                                               *)
@@ -71,7 +74,7 @@ ShapesOf(n) == IF n = 1 THEN <<<<Obj("Model", 0, "", 1, TRUE, 0)>>, <<Obj("Model
 Visible(s, f) == {t \in 1..Len(s) : s[t].kind \in DefKinds /\ (s[t].file = f \/ f = 1)}
 Complete(s) ==
   /\ \A o \in 1..Len(s) :
-       /\ s[o].kind = "Box" => Cardinality(KidsOfShape(s, o)) = 1
+       /\ s[o].kind \in {"Box", "Slot"} => Cardinality(KidsOfShape(s, o)) = 1
        /\ s[o].kind = "Grp" => KidsOfShape(s, o) # {}
        /\ s[o].kind = "Model" => s[o].hdr \/ KidsOfShape(s, o) # {}
        /\ s[o].nref > 0 => Visible(s, s[o].file) # {}
@@ -139,6 +142,7 @@ RefStart(s, rs, o, j) ==
   SegStart(s, rs, o, StartOf(s, rs, o), (IF Pre(s, o) > 0 THEN 1 ELSE 0) + Len(KidSeq(s, o)) + j)
 
 NoFault == [on |-> FALSE, proc |-> "obj", obj |-> 0, rule |-> "", exc |-> "txnoloc", wrap |-> FALSE,
+            hline |-> FALSE, hcol |-> FALSE, hnchar |-> FALSE, hfile |-> FALSE,
             sline |-> 0, scol |-> 0, snchar |-> 0, sfile |-> "", mfile |-> 1, mline |-> 0, mcol |-> 0]
 
 Build(s, rs, main, procs, repl, fault) ==
@@ -152,13 +156,13 @@ Build(s, rs, main, procs, repl, fault) ==
                 start |-> RefStart(s, rs, rs[i].owner, i - RefBase(s, rs[i].owner)),
                 len |-> RefLen(rs[i].parts)]],
    files |-> [f \in 1..NumFiles(s) |-> IF f = 1 THEN main ELSE "imp" \o ToString(f) \o ".m"],
-   procs |-> procs, repl |-> repl, fault |-> fault]
+   procs |-> procs, repl |-> repl, replk |-> [i \in 1..Len(repl) |-> "str"], fault |-> fault]
 
 ----------------------------------------------------------------------------
 \* processor tables
 RelevantRules(s) == UNION {{s[o].kind, IF s[o].parent = 0 THEN s[o].kind
                                        ELSE CarrierMeta[s[s[o].parent].kind][SlotIndex(s[s[o].parent].kind, s[o].slot)].decl}
-                             : o \in 1..Len(s)}
+                             : o \in 1..Len(s)} \ {"Plain"}
 FullTables == atoi(IOEnv.VT_FULLTABLES)
 \* every (processors, replacing processors) table over the rules that matter for the shape;
 \* for shapes with more than FullTables objects: every replacement subset with all rules
@@ -177,16 +181,22 @@ C13Scenarios(u) ==
           LET s == S[i]
               base == Build(s, DefaultRefs(s), "main.m", <<>>, <<>>, NoFault)
               ts == Tables(s)
-          IN [j \in 1..Len(ts) |-> [base EXCEPT !.procs = SeqOfSet(ts[j][1]), !.repl = SeqOfSet(ts[j][2])]]])
+          IN [j \in 1..Len(ts) |->
+                LET R == SeqOfSet(ts[j][2]) IN
+                [base EXCEPT !.procs = SeqOfSet(ts[j][1]), !.repl = R,
+                             \* replacement values: identifying strings, and a falsy value now and then
+                             !.replk = [q \in 1..Len(R) |-> IF (q + j) % 3 = 0 THEN "zero" ELSE "str"]]]])
 \* shapes only (the conformance pass multiplies them with processor tables itself)
 ShapeScenarios(u) == LET S == Shapes IN
                      [i \in 1..Len(S) |-> Build(S[i], DefaultRefs(S[i]), "main.m", <<>>, <<>>, NoFault)]
 
 \* C33: every processor call and every named object's name match as the failing
 \* site, every row of the decision table
-SupChoices == {<<l, c, n, f>> \in {0, 77} \X {0, 88} \X {0, 99} \X {"", "supplied.x"} :
-                 l # 0 \/ c # 0 \/ n # 0 \/ f # ""}
-Excs == SetToSeq({[exc |-> "txnoloc", sup |-> <<0, 0, 0, "">>], [exc |-> "other", sup |-> <<0, 0, 0, "">>]}
+\* which fields the raised error carries (not none of them), with ordinary or falsy values
+SupChoices == {<<hl, hc, hn, hf, falsy>> \in BOOLEAN \X BOOLEAN \X BOOLEAN \X BOOLEAN \X BOOLEAN :
+                 hl \/ hc \/ hn \/ hf}
+Excs == SetToSeq({[exc |-> "txnoloc", sup |-> <<FALSE, FALSE, FALSE, FALSE, FALSE>>],
+                  [exc |-> "other", sup |-> <<FALSE, FALSE, FALSE, FALSE, FALSE>>]}
                  \cup {[exc |-> "txsome", sup |-> u] : u \in SupChoices})
 C33Scenarios(u) ==
   LET S == Shapes IN
@@ -201,7 +211,9 @@ C33Scenarios(u) ==
         sites == SetToSeq(objSites \cup matchSites)
         flt(x, e, w) ==
           [on |-> TRUE, proc |-> x[1], obj |-> x[2], rule |-> x[3], exc |-> e.exc, wrap |-> w,
-           sline |-> e.sup[1], scol |-> e.sup[2], snchar |-> e.sup[3], sfile |-> e.sup[4],
+           hline |-> e.sup[1], hcol |-> e.sup[2], hnchar |-> e.sup[3], hfile |-> e.sup[4],
+           sline |-> IF e.sup[5] THEN 0 ELSE 77, scol |-> IF e.sup[5] THEN 0 ELSE 88,
+           snchar |-> IF e.sup[5] THEN 0 ELSE 99, sfile |-> IF e.sup[5] THEN "" ELSE "supplied.x",
            mfile |-> s[x[2]].file, mline |-> 1, mcol |-> b0.objs[x[2]].start + 6]
         mains == IF NumFiles(s) = 1 THEN <<"", "main.m">> ELSE <<"main.m">>
     IN Flat([m \in 1..Len(mains) |->
